@@ -115,9 +115,22 @@ func (e *ExchangeJSightSchema) processAllOf(uut *StringSet) error {
 	return e.exchangeContent.processAllOf(uut, e.catalogUserTypes)
 }
 
+// exampleMu serialises the example builder of the schema library: it assembles examples in
+// pooled buffers and returns slices of buffers it has already put back, so two goroutines
+// building examples at the same time (two catalogs being serialised, or one catalog serialised
+// twice) overwrite each other's result.
+var exampleMu sync.Mutex
+
 func (e *ExchangeJSightSchema) Example() ([]byte, error) {
-	// TODO once
-	return e.JSchema.Example()
+	exampleMu.Lock()
+	defer exampleMu.Unlock()
+
+	b, err := e.JSchema.Example()
+	if err != nil {
+		return nil, err
+	}
+	// The bytes belong to a pooled buffer: keep a copy.
+	return append([]byte(nil), b...), nil
 }
 
 func (e *ExchangeJSightSchema) MarshalJSON() ([]byte, error) {
